@@ -48,7 +48,8 @@ EXPECT_PROBES = ["announced", "lost_announced", "lost_half_open",
                  "lost_before_features", "early_port_status",
                  "same_dpid_overlap", "barrier_unsupported", "reset", "close",
                  "probe_send_hit", "probe_send_miss",
-                 "unrelated_bad_type_error_mid_handshake"]
+                 "unrelated_bad_type_error_mid_handshake",
+                 "glued_to_handshake_end"]
 
 DPIDS = [0x11, 0x2200000022]
 # the two datapath ids of a run are drawn from here (cfg["dpids"]); 0 and
@@ -96,6 +97,13 @@ def gen_plan(seed, tier):
         st["port"] = r.randint(1, 4)
       noise.append(st)
     seq = [{"op": c} for c in core]
+    for st in seq:
+      if st["op"].startswith("barrier") and r.chance(0.35):
+        # further messages in the very write that ends the handshake (the
+        # controller may get them in one recv() with the barrier reply)
+        st["glue"] = [r.pick(["port_status", "port_status", "packet_in",
+                              "dup_barrier"])
+                      for _ in range(r.randint(1, 3))]
     for nst in noise:
       seq.insert(r.randint(0, len(seq)), nst)
     # after-up traffic
@@ -250,11 +258,25 @@ def _drive(sim, plan, known, hit):
         # quantifier has no unsolicited barrier replies
         continue
       if op == "barrier_ok":
-        peer.send(W.enc_barrier_reply(m.barrier_xid))
+        blob = W.enc_barrier_reply(m.barrier_xid)
       else:
         sim.probes["barrier_unsupported"] += 1
-        peer.send(W.enc_error(m.barrier_xid, W.ET_BAD_REQUEST, W.BRC_BAD_TYPE,
-                              W.enc_barrier_request(m.barrier_xid)))
+        blob = W.enc_error(m.barrier_xid, W.ET_BAD_REQUEST, W.BRC_BAD_TYPE,
+                           W.enc_barrier_request(m.barrier_xid))
+      for g in st.get("glue", ()):
+        sim.probes["glued_to_handshake_end"] += 1
+        if g == "port_status":
+          x = nx()
+          blob += W.enc_port_status(x, 2, _port(1 + x % 4))
+          m.ps_after_up.append(x)
+          m.ps_after_features.append(x)
+        elif g == "packet_in":
+          data = F.eth(F.mac(1), F.mac(2), 0x88b5, b"x" * 20)
+          blob += W.enc_packet_in(nx(), W.NO_BUFFER, len(data), 1, 0, data)
+        else:
+          # the same answer once more: nothing to complete any more
+          blob += W.enc_barrier_reply(m.barrier_xid)
+      peer.send(blob)
       m.announced = True
       ann_counter[0] += 1
       m.ann_seq = ann_counter[0]
